@@ -383,7 +383,11 @@ package rapid
 //@ func (*rapidContext).HandleReset
 //@   ensures [cancel-then-wait-for-the-running-handler-then-reset] delta(FlowsCancelledForReset) == 1 && delta(ResetHandled) == 1 && first(FlowsCancelledForReset) < first(ResetHandled) && lastarg(ResetHandled, 0) == r && lastarg(ResetHandled, 1) == reset
 
+// C15 "at most one runtime-done after the start of an invocation" spans calls (the invocation and the reset that ends it):
+// since(E, S) counts the occurrences of E after the last S, whatever the history before this call was.
 //@ func handleReset
+//@   requires since(EvInvokeRuntimeDone, EvInvokeStart) <= 1
+//@   ensures [at-most-one-runtime-done-per-invocation] since(EvInvokeRuntimeDone, EvInvokeStart) <= 1
 //@   ensures [full-teardown-with-the-request's-deadline-and-reason] delta(FullShutdown) == 1 && lastarg(FullShutdown, 1) == execCtx && lastarg(FullShutdown, 2) == resetEvent.DeadlineNs && lastarg(FullShutdown, 3) == resetEvent.Reason
 //@   ensures [new-generation-after-the-teardown] execCtx.runtimeDomainGeneration == (old(execCtx.runtimeDomainGeneration) + 1) % 4294967296
 //@   ensures [runtime-done-only-for-timeout-or-failure] delta(EvInvokeRuntimeDone) == ite(resetEvent.Reason == "failure" || resetEvent.Reason == "timeout", 1, 0) && delta(EvInvokeRuntimeDoneSuccess) == 0 && (delta(EvInvokeRuntimeDone) == 1 ==> first(EvInvokeRuntimeDone) < first(FullShutdown) && lastarg(EvInvokeRuntimeDone, 1).Status == ite(resetEvent.Reason == "timeout", "timeout", lastarg(EvInvokeRuntimeDone, 1).Status))
